@@ -172,6 +172,12 @@ def run_coord(W, cfg):
         vals = W.zeros(shp)
         for (r, c) in sup:
             vals[r, c] = W.real(f'mk_{r}_{c}', nz=True)
+    # another mask of the same shape is evaluated first (same process): nothing of it may be remembered
+    other = rnp.ones(shp)
+    if other.size > 2:
+        other[0, 0] = 0
+        lt.zernike_coordinates(other)
+        W.mod('zernike').zernike(other, 4, normalize=False)
     rho, theta = lt.zernike_coordinates(vals)
     # centroid of the support (every supported sample counts once: the mask enters only through its support)
     cr = Fraction(sum(r for r, c in sup), len(sup))
